@@ -131,17 +131,15 @@ func (c *Ctx) ruleTruncationMargin(id string) (minMargin int64) {
 			// guard: some dominating true-branch of (k < x) with k >= c, same x term
 			xt := core.Term(bo.X)
 			guarded := false
-			for _, b := range f.Blocks {
-				iff, ok := b.Instrs[len(b.Instrs)-1].(*ssa.If)
-				if !ok || !b.Succs[0].Dominates(cl.Instr.Block()) || len(b.Succs[0].Preds) != 1 {
-					continue
-				}
-				a := orderAtom(iff.Cond, false)
+			for _, cc := range controllingConds(cl.Instr.Block(), nil) {
+				// the condition as it holds on the way to the call (an early return guards by its false branch)
+				a := orderAtom(cc.cond, !cc.pol)
 				if a.kind != "order" {
 					continue
 				}
 				if k, ok := constInt(a.lhs); ok && core.Term(a.rhs) == xt {
-					if k > cst || (k == cst && a.strict) || (k >= cst && a.strict) {
+					// k < x  or  k <= x
+					if (a.strict && k >= cst) || (!a.strict && k > cst) {
 						guarded = true
 					}
 				}
@@ -338,8 +336,19 @@ func checkC15(c *Ctx) {
 		ru6.Check(okO && okR, "offset/record correspondence in "+c.fname(s.batch), c.whereI(s.handover.Instr), "offset = FirstOffset + i, record = Records[i]", "the offset handed over does not correspond to the record decoded: offset "+short(ot, 100)+", record "+short(rt, 100))
 		skip := ""
 		if lh != nil {
+			// where the hand-over happens in the batch closure: the call itself or the call of the helper that makes it
+			hos := c.liftTo(s.batch, s.handover.Instr)
 			for _, pr := range lh.Header.Preds {
-				if lh.Blocks[pr] && !s.handover.Instr.Block().Dominates(pr) {
+				if !lh.Blocks[pr] {
+					continue
+				}
+				dominated := false
+				for _, at := range hos {
+					if at.Block().Dominates(pr) {
+						dominated = true
+					}
+				}
+				if !dominated {
 					skip = "an iteration can continue to the next record without handing the current one over"
 				}
 			}
